@@ -26,8 +26,10 @@ variable {K R P S : Type}
 below) when ServerKeyExchange becomes optional again (F1), when a certificate is no longer
 chain-verified, when a `VerifyOptions` field is dropped, when resumption stops re-verifying
 the recorded certificates (F13), when `readFinished` leaves a branch of `handshake()`, when
-the Finished comparison changes or when completion is recorded anywhere but after both
-branches. -/
+the Finished comparison changes, when completion is recorded anywhere but after both
+branches, or when the session cache's eviction leaves the evicted session with a wiped but
+still present master secret (a publicly known one), or removes the secret while
+`processServerHello` no longer refuses a session without one (both inside `GoodResume`). -/
 theorem C02_facts :
     (∀ st, GoodFull (paramsOf st) ∧ GoodResume (paramsOf st)) ∧
     -- chain verification is guarded by InsecureSkipVerify only, with the documented options
@@ -48,6 +50,8 @@ theorem C02_facts :
     -- completion is recorded once, after both branches of handshake(), nowhere else
     Facts.tlcp.caStatusStoreLast = true ∧ Facts.dtlcp.caStatusStoreLast = true ∧
     Facts.tlcp.caStatusStoresElsewhere = 0 ∧ Facts.dtlcp.caStatusStoresElsewhere = 0 ∧
+    -- the eviction path of the session cache and the guard of processServerHello were found
+    Facts.tlcp.caEvictionPathFound = 1 ∧ Facts.dtlcp.caEvictionPathFound = 1 ∧
     Facts.missing = [] := by
   refine ⟨fun st => ?_, ?_⟩
   · cases st <;> decide
@@ -164,9 +168,12 @@ def untrustedView : FullView Nat Nat Nat (Nat × Tbs Nat Nat) :=
 example : (fullHandshake (paramsOf .tlcp) pairVerify true untrustedView).outcome = .completed := by decide
 example : (fullHandshake (paramsOf .tlcp) pairVerify false untrustedView).outcome ≠ .completed := by decide
 
-/-- **Resumption.**  If a connection completes on the resumption branch, Finished was correct
-and — unless verification is disabled — the certificates recorded with the session pass the
-chain / validity / name checks of the configuration NOW in use. -/
+/-- **Resumption.**  If a connection completes on the resumption branch, the peer's Finished was
+the correct one for the master secret of the session being resumed (not merely for whatever
+the client happened to hold: a cache eviction racing with `loadSession` may leave it holding
+nothing, and must never leave it holding a public value) and — unless verification is
+disabled — the certificates recorded with the session pass the chain / validity / name checks
+of the configuration NOW in use. -/
 theorem C02_resumed (st : Stack) (verify : K → Tbs R P → S → Bool) (skip : Bool) (c : ConnView K R P S)
     (hr : (connect (paramsOf st) verify skip c).resumed = true)
     (h : (connect (paramsOf st) verify skip c).result.outcome = .completed) :
@@ -205,11 +212,83 @@ whose certificates do not verify now is not offered and the connection falls bac
 full handshake -/
 def honestSess : SessView :=
   { nCerts := 2, chainSig := true, chainEnc := true, serverResumes := true, versOK := true,
-    suiteOK := true, masterPresent := true, finishedOK := true }
+    suiteOK := true, evictedInWindow := false, evictedAfterLoad := false, peerFin := some .session }
 example : connect (paramsOf .tlcp) pairVerify false ⟨some honestSess, honestView⟩ =
     ⟨⟨.completed, 1⟩, true⟩ := by decide
 example : connect (paramsOf .dtlcp) pairVerify false ⟨some { honestSess with chainEnc := false }, untrustedView⟩ =
     ⟨⟨.failed "certificate-chain" "bad_certificate", 0⟩, false⟩ := by decide
+
+/-- **A secret the cache wiped is never used.**  Whenever other connections' sessions push the
+entry out of the cache — after `SessionCache.Get` handed it to `loadSession` and before
+`loadSession` took its copy, or at any later moment of the handshake — a completed resumption
+computed with the session's own master secret and accepted a Finished computed with it: no
+peer completes with the client by guessing what a wiped or dropped buffer contains. -/
+theorem C02_wiped_secret_never_used (st : Stack) (s : SessView)
+    (h : (resumedHandshake (paramsOf st) s).outcome = .completed) :
+    heldSecret (paramsOf st) s = .session ∧ s.peerFin = some .session :=
+  have gr := (C02_facts.1 st).2.toGoodResumeBase
+  ⟨resumed_held_session gr h, resumed_completed gr h⟩
+
+/-- … and with an eviction that removes the secret (`setZero` then `= nil`, the tree as it
+stands) and the guard of `processServerHello`, the evicted session is not resumed at all -/
+theorem C02_evicted_session_never_resumed (p : Params) (gr : GoodResumeBase p)
+    (hd : p.evictDrops = true) (hg : p.secretGuard = true) (s : SessView)
+    (h : (resumedHandshake p s).outcome = .completed) :
+    s.evictedInWindow = false ∧ (p.loadClones = false → s.evictedAfterLoad = false) := by
+  have he := resumed_not_evicted gr.stepFin hd hg h
+  simp only [readsEvicted, Bool.or_eq_false_iff, Bool.and_eq_false_iff, Bool.not_eq_false'] at he
+  refine ⟨he.1, fun hc => ?_⟩
+  rcases he.2 with h1 | h2
+  · simp [hc] at h1
+  · exact h2
+
+/-- both shapes of a safe eviction satisfy the hypotheses: wipe-and-drop behind the guard … -/
+example : GoodResumeBase { paramsOf .dtlcp with evictWipes := true, evictDrops := true, secretGuard := true } := by
+  decide
+/-- … and an eviction path without any clean-up, as good for THIS property (the secret stays secret) -/
+example : GoodResumeBase { paramsOf .tlcp with evictDrops := false, evictWipes := false } := by decide
+
+/-- non-vacuity: the eviction in the window makes the model refuse, whatever the peer computes with;
+an eviction after `loadSession` returned is harmless (private copy) -/
+example : ∀ k, (resumedHandshake { paramsOf .dtlcp with evictWipes := true, evictDrops := true, secretGuard := true }
+    { honestSess with evictedInWindow := true, peerFin := k }).outcome =
+    .failed "resume-master" "internal_error" := by
+  intro k; cases k with
+  | none => decide
+  | some x => cases x <;> decide
+example : (resumedHandshake { paramsOf .tlcp with loadClones := true } { honestSess with evictedAfterLoad := true }).outcome =
+    .completed := by decide
+
+/-- **(negation) an eviction that wipes without dropping.**  Were the evicted session left with
+an all-zero master secret — `setZero` without `= nil` — `C02_resumed` would be false: the
+verifying client, its session evicted inside the window of `loadSession`, completes with a
+peer that echoes the session id and computes with 48 zero bytes, i.e. proves nothing. -/
+def wipedWitness : ConnView Nat Nat Nat (Nat × Tbs Nat Nat) :=
+  ⟨some { honestSess with evictedInWindow := true, peerFin := some .zeros }, untrustedView⟩
+
+theorem C02_resumed_false_when_eviction_only_wipes :
+    ¬ ∀ (c : ConnView Nat Nat Nat (Nat × Tbs Nat Nat)),
+      (connect { paramsOf .dtlcp with evictWipes := true, evictDrops := false } pairVerify false c).resumed = true →
+      (connect { paramsOf .dtlcp with evictWipes := true, evictDrops := false } pairVerify false c).result.outcome = .completed →
+      ∃ s, c.session = some s ∧ ResumedAuthenticated true (sessEvidenceOf s) := by
+  intro h
+  obtain ⟨s, hs, ha⟩ := h wipedWitness (by decide) (by decide)
+  have : s = { honestSess with evictedInWindow := true, peerFin := some .zeros } := by
+    simp only [wipedWitness, Option.some.injEq] at hs; exact hs.symm
+  subst this
+  revert ha
+  decide
+
+/-- … and the same without the guard of `processServerHello`: the dropped (empty) secret is
+the very PRF key the wiped one is, so the peer computing with 48 zero bytes completes -/
+theorem C02_resumed_false_without_secret_guard :
+    ¬ ∀ (s : SessView),
+      (resumedHandshake { paramsOf .tlcp with evictDrops := true, secretGuard := false } s).outcome = .completed →
+      (sessEvidenceOf s).finishedCorrect = true := by
+  intro h
+  have := h { honestSess with evictedInWindow := true, peerFin := some .zeros } (by decide)
+  revert this
+  decide
 
 /-- **F13 (negation).**  Without re-verification of the recorded certificates — the code as it
 stood — `C02_resumed` is false: a session recorded under `InsecureSkipVerify` from a server
@@ -243,7 +322,7 @@ theorem C02_resumed_partial (p : Params) (gp : GoodFullBase p) (gr : GoodResumeB
     (hnotstricter : skip₁ = true → skip₂ = true)
     (h : (resumedHandshake p s).outcome = .completed) :
     ResumedAuthenticated (!skip₂) (sessEvidenceOf s) := by
-  refine ⟨?_, resumed_completed gr.stepFin h⟩
+  refine ⟨?_, by simp [sessEvidenceOf, resumed_completed gr h]⟩
   intro hv
   have hs2 : skip₂ = false := by cases skip₂ <;> simp_all
   have hs1 : skip₁ = false := by
